@@ -115,6 +115,14 @@ pub fn compare(exp: &Expected, rec: &TxRec) -> Vec<(String, String)> {
     if gs != exp.signers || rec.required_signers.len() != exp.signers.len() {
         d.push(("required-signers".into(), format!("expected {} signers, got {}", exp.signers.len(), rec.required_signers.len())));
     }
+    let gw: BTreeMap<Vec<u8>, i128> = rec.withdrawals.iter().map(|(a, n)| (a.clone(), *n as i128)).collect();
+    if gw != exp.withdrawals || rec.withdrawals.len() != exp.withdrawals.len() {
+        let show = |m: &BTreeMap<Vec<u8>, i128>| m.iter().map(|(a, n)| format!("{}:{n}", hex::encode(a))).collect::<Vec<_>>();
+        d.push(("withdrawals".into(), format!("expected withdrawals {:?}, got {:?}", show(&exp.withdrawals), show(&gw))));
+    }
+    if rec.donation.map(|x| x as i128) != exp.donation {
+        d.push(("donation".into(), format!("expected donation {:?}, got {:?}", exp.donation, rec.donation)));
+    }
     let gr: BTreeSet<(Vec<u8>, u64)> = rec.reference_inputs.iter().cloned().collect();
     if gr != exp.reference_inputs {
         d.push(("reference-inputs".into(), format!("expected {:?}, got {:?}", short_refs(&exp.reference_inputs), short_refs(&gr))));
